@@ -342,4 +342,96 @@ def hrun (m : QMode) (h : H) (acc : List (Nat × HResult)) : List HEv → H × L
     | none => hrun m r.1 acc es
     | some x => hrun m r.1 (x :: acc) es
 
+/-! ## Inside a callback: the guard and the write are two steps; what `stop()` waits for
+
+`@_early_return` is `if self.is_disabled(): return; self.check(); func(self, …)`, and `func` of the
+predicate callbacks *evaluates the comparison of the module under test itself* (`_compare_distances`,
+`if value:` under `temporarily_disable`) before it writes to the caller's thread-local trace.  A test
+thread can therefore sit INSIDE a tracer call for ever (`x in <endless generator>`, an `__eq__` /
+`__bool__` that never returns): it passed the guard and has not written yet.  `FOp` splits a callback
+into `cbBegin` (flag test + `check()`) and `cbEnd c` (the write); `F.inside` says which threads are between
+the two.  `TestCaseExecutor.execute` (the watchdog, main thread) calls `stop()` after the first join:
+`LockMode.none` is the code (`stop()` is one assignment, it waits for nobody); `LockMode.updateLock` is the
+counterexample discipline (a reentrant lock held around `check()` + update and acquired by `stop()`):
+there a call may be *not enabled* — the caller would wait — and a schedule in which a blocked call
+happens does not exist (`frun … = none`). -/
+
+inductive LockMode
+  /-- the code: no lock anywhere -/
+  | none
+  /-- an `RLock` around `check(); func(…)` in `_early_return`, also acquired by `stop()` -/
+  | updateLock
+  deriving DecidableEq, Repr
+
+/-- A step of a thread at the finer grain. -/
+inductive FOp
+  /-- a whole tracer call in one step (for `.cb c`: guard and write back to back) -/
+  | plain (op : Op)
+  /-- entering a callback: `if self.is_disabled(): return; [acquire]; self.check()` -/
+  | cbBegin
+  /-- leaving it: the write to the caller's trace `[release]` -/
+  | cbEnd (c : Cb)
+  deriving DecidableEq, Repr, Inhabited
+
+structure F where
+  tr : T
+  /-- threads that passed the guard of a callback and have not written yet -/
+  inside : Tid → Bool
+  /-- the holder of the update lock (`LockMode.updateLock` only) -/
+  owner : Option Tid
+
+def F.init (s : T) : F := ⟨s, fun _ => false, none⟩
+
+def lockFreeFor (s : F) (t : Tid) : Bool := decide (s.owner = none ∨ s.owner = some t)
+
+/-- Can thread `t` take this step now, or would it wait for a lock? -/
+def fenabled : LockMode → F → Tid → FOp → Bool
+  | .none, _, _, _ => true
+  | .updateLock, s, t, .plain .stop => lockFreeFor s t
+  | .updateLock, s, t, .plain .exit => lockFreeFor s t
+  | .updateLock, s, t, .plain (.cb _) => !(s.tr.loc t).enabled || lockFreeFor s t
+  | .updateLock, s, t, .cbBegin => !(s.tr.loc t).enabled || lockFreeFor s t
+  | .updateLock, _, _, _ => true
+
+def LockMode.acquire : LockMode → Option Tid → Tid → Option Tid
+  | .none, o, _ => o
+  | .updateLock, _, t => some t
+
+def LockMode.release : LockMode → Option Tid → Option Tid
+  | .none, o => o
+  | .updateLock, _ => Option.none
+
+/-- Thread `t` takes the step; returns the new state and whether `TracingAbortedException` is raised. -/
+def fstep (m : LockMode) (s : F) (t : Tid) : FOp → F × Bool
+  | .plain op => ({ s with tr := (step s.tr t op).1 }, (step s.tr t op).2)
+  | .cbBegin =>
+    if (s.tr.loc t).enabled = false then (s, false)
+    else if s.tr.current ≠ some t then (s, true)
+    else ({ s with inside := fun u => if u = t then true else s.inside u,
+                   owner := m.acquire s.owner t }, false)
+  | .cbEnd c =>
+    if s.inside t = true then
+      ({ tr := s.tr.setLoc t { s.tr.loc t with trace := c.apply (s.tr.loc t).trace },
+         inside := fun u => if u = t then false else s.inside u,
+         owner := m.release s.owner }, false)
+    else (s, false)
+
+structure FEv where
+  tid : Tid
+  op : FOp
+  deriving DecidableEq, Repr, Inhabited
+
+/-- Run a fine-grained schedule; `none` = some step of it would have to wait (the schedule cannot
+happen under this lock discipline). -/
+def frun (m : LockMode) (s : F) : List FEv → Option F
+  | [] => some s
+  | e :: es => if fenabled m s e.tid e.op then frun m (fstep m s e.tid e.op).1 es else Option.none
+
+/-- The raised flags along a fine-grained schedule (as far as it runs). -/
+def frunLog (m : LockMode) (s : F) : List FEv → List Bool
+  | [] => []
+  | e :: es =>
+    if fenabled m s e.tid e.op then (fstep m s e.tid e.op).2 :: frunLog m (fstep m s e.tid e.op).1 es
+    else []
+
 end PynguinModel.ThreadGuard
